@@ -19,7 +19,12 @@ RULE = (
     "scores) are recomputed through the Lean model and the returned (scores, descs) checked; then "
     "assign_confidence(descs=...) is run and the PSM-level winners and order are checked against the direction; "
     "distinct = distinct (data seed, encoding, direction, estimator kind, folds); non-trivial = estimator inverted or "
-    "lower-is-better feature"
+    "lower-is-better feature; extension: the whole returned (scores, descs) is compared with the end-to-end Lean model "
+    "`brewTail` and checked by the proved-equivalent Boolean of `TailSpec` (ops fbtail / fbtailspec), collections of one "
+    "run may use different label encodings, Model(direction=<feature>) is generated (feat_pass/desc vs `dirStart`, "
+    "best_feat must name that feature), and assign_confidence(scores=None) is run: per collection the result files must "
+    "rank by a (feature, direction) pair accepting the most targets at eval_fdr, low values first when lower-is-better "
+    "(op fbentry)"
 )
 THR = 0.25
 
@@ -37,6 +42,12 @@ def gen_case(rng):
         seed=rng.randrange(1000),
         data_seed=rng.randrange(1 << 30),
         two_good=rng.random() < 0.5,     # two features of similar power: folds may disagree on the best one
+        # second collection stored with another label encoding than the first
+        enc2=rng.choice([None, None, "pm1", "01", "bool"]),
+        # Model(direction=...): the start feature is named by the user (0 = informative feature, 1 = the other one)
+        direction=rng.choice([None, None, None, None, 0, 0, 1]),
+        # also run assign_confidence(psms, scores=None) at this eval_fdr (its own best-feature path)
+        entry_fdr=rng.choice([None, None, None, None, 0.25, 0.5, 0.125]),
         # the best feature is counted at the model's training FDR, the learned scores at the evaluation FDR
         **rng.choice([dict(), dict(), dict(train_fdr=0.5, test_fdr=0.125), dict(train_fdr=0.125, test_fdr=0.5),
                       dict(train_fdr=0.5, test_fdr=0.01, signal=1.0), dict(train_fdr=0.5, test_fdr=0.03, signal=1.5),
@@ -51,6 +62,157 @@ def raw_labels(df):
     return out
 
 
+def raw_wire(df):
+    """the stored label column on the wire: T/F for booleans, the integer otherwise"""
+    return raw_labels(df)
+
+
+def entry_check(chk, case, d, dss, tabs, feature_cols):
+    """assign_confidence(psms, scores=None): every collection is ranked by its own best feature IN THE DIRECTION
+    find_best_feature reports (confidence.py:561-569).  Spec: the result files of a collection rank by a
+    (feature, direction) pair that accepts the most targets at eval_fdr over all features and both directions;
+    model: `collBest` (first maximum, higher-is-better tried first)."""
+    thr = Fraction(case["entry_fdr"])
+    out = d / "out_entry"
+    out.mkdir()
+    try:
+        with P.pep_kernel(stub=True):
+            P.run_assign_confidence(dss, None, out, eval_fdr=float(thr), prefixes=[f"e{k}" for k in range(len(dss))],
+                                    decoys=True)
+    except Exception as e:
+        msg = f"{type(e).__name__}: {e}"
+        if isinstance(e, RuntimeError) and "No PSMs found" in msg:
+            real = None
+        else:
+            chk.spec_violation("confidence-entry-exception:" + type(e).__name__,
+                               dict(case=case, error=msg[:300], clause="assign_confidence(scores=None) raised"))
+            return
+    else:
+        real = True
+    colls = [[raw_wire(df), [[int(v) for v in df[c]] for c in feature_cols], []] for df in tabs]
+    # model (fbentry) and, independently, the counts (C01 model `labels`): accepted targets of every feature column in
+    # both directions, per collection — one driver call
+    reqs = [req("fbentry", thr, colls)]
+    for df in tabs:
+        targets = [l in (1, True) for l in raw_labels(df)]
+        for c in feature_cols:
+            for desc_ in (True, False):
+                reqs.append(req("labels", desc_, thr, [[int(v), t] for v, t in zip(df[c], targets)]))
+    resp = common.driver_batch(reqs)
+    model = dec(resp[0])
+    chk.count("entry", "none" if model == "none" else "ranked")
+    per = 2 * len(feature_cols)
+    all_counts = [[sum(1 for x in dec(r_) if x == "1") for r_ in resp[1 + k * per: 1 + (k + 1) * per]]
+                  for k in range(len(tabs))]
+    nothing = [k for k, cs in enumerate(all_counts) if max(cs) == 0]
+    if real is None:
+        if not nothing:
+            chk.spec_violation("confidence-entry-refused",
+                               dict(case=case, eval_fdr=str(thr), best_counts=[max(cs) for cs in all_counts],
+                                    clause="assign_confidence(scores=None) raised 'No PSMs found' although in every collection "
+                                           "some feature accepts targets at eval_fdr in one of the two directions"))
+            return
+        if model != "none":
+            chk.corr_break("fbentry", dict(case=case, impl="RuntimeError", model=str(model)[:80]))
+        chk.reject("entry-nothing-accepted")
+        return
+    if nothing:
+        chk.spec_violation("confidence-entry-refused",
+                           dict(case=case, eval_fdr=str(thr), collection=nothing[0],
+                                clause="assign_confidence(scores=None) returned although no feature of a collection accepts a target"))
+        return
+    if model == "none":
+        chk.corr_break("fbentry", dict(case=case, impl="ranked", model="none"))
+        return
+    for k, df in enumerate(tabs):
+        counts = all_counts[k]
+        best_n = max(counts)
+        t = P.read_result(out / f"e{k}.targets.psms"); dd = P.read_result(out / f"e{k}.decoys.psms")
+        byid = {sid: i for i, sid in enumerate(df["SpecId"])}
+        ids = [byid[x] for x in list(t["PSMId"]) + list(dd["PSMId"])]
+        rep = np.asarray(list(t["score"]) + list(dd["score"]), dtype=float)
+        cands = []
+        for j, c in enumerate(feature_cols):
+            col = df[c].values.astype(float)
+            for di, desc_ in enumerate((True, False)):
+                if np.array_equal(rep, (col if desc_ else -col)[ids]):
+                    cands.append((j, desc_, counts[2 * j + di]))
+        info = dict(case=case, collection=k, eval_fdr=str(thr),
+                    counts={f"{c}/{'desc' if de else 'asc'}": counts[2 * j + di] for j, c in enumerate(feature_cols)
+                            for di, de in enumerate((True, False))},
+                    ranked_by=[dict(feature=feature_cols[j], desc=de, accepts=n) for j, de, n in cands])
+        m_rank, m_desc, m_i, m_n = model[k]
+        chk.count("entry_desc", m_desc)
+        if not cands:
+            chk.spec_violation("confidence-best-feature-direction",
+                               dict(info, clause="assign_confidence(scores=None): the reported scores are no feature column in any direction"))
+            return
+        if not any(n == best_n for _, _, n in cands):
+            j, de, n = cands[0]
+            chk.spec_violation("confidence-best-feature-direction",
+                               dict(info, clause=f"assign_confidence(scores=None) ranks collection {k} by {feature_cols[j]} as "
+                                                 f"{'higher' if de else 'lower'}-is-better, which accepts {n} targets at "
+                                                 f"q<={thr}; the best feature/direction accepts {best_n} (the direction found "
+                                                 "by find_best_feature is not honoured)"))
+            return
+        j, de, n = [c for c in cands if c[2] == best_n][0]
+        rank = (df[feature_cols[j]].values if de else -df[feature_cols[j]].values).astype(float)
+        best = {}
+        for i, s_ in enumerate(df["ScanNr"]):
+            if s_ not in best or rank[i] > rank[best[s_]]:
+                best[s_] = i
+        bad = None
+        if sorted(ids) != sorted(best.values()):
+            bad = "PSM-level winners are not the best-ranked PSM per spectrum in the best feature's direction"
+        for f_ in (t, dd):
+            rr = [rank[byid[x]] for x in f_["PSMId"]]
+            if any(a < b for a, b in zip(rr, rr[1:])):
+                bad = "result rows are not ordered best-first in the best feature's direction"
+        acc = int((np.asarray(t["q-value"], dtype=float) <= float(thr)).sum())
+        if bad:
+            chk.spec_violation("confidence-best-feature-direction", dict(info, clause="assign_confidence(scores=None): " + bad))
+            return
+        # model agreement (which of several maximal pairs: first maximum, higher-is-better first)
+        if (int(m_i), m_desc == "T") != (j, de) and sum(1 for x in counts if x == best_n) == 1:
+            chk.corr_break("fbentry", dict(info, model=[int(m_i), m_desc, int(m_n)]))
+        elif int(m_n) != best_n:
+            chk.corr_break("fbentry", dict(info, model=[int(m_i), m_desc, int(m_n)], note="model count differs from the C01 count"))
+        if len(chk.extra.setdefault("entry_accepted_at_psm_level_samples", [])) < 8:
+            chk.extra["entry_accepted_at_psm_level_samples"].append(dict(feature=feature_cols[j], desc=de, accepted=acc))
+
+
+def refusal_check(chk, case, d, tabs, feature_cols, direction, msg):
+    """brew raised 'No PSMs accepted at train_fdr' / 'No PSMs found below ...'.  The training set of fold f is every row
+    outside test fold f (the partition into folds does not depend on the seed: spectra are grouped by a hash and cut at
+    fixed positions, C02); it is recomputed with `_split` on freshly read datasets.  If on EVERY training set the start
+    feature accepts a target (C01 model), the refusal breaks the safety net."""
+    folds = case["folds"]
+    fresh = [mkdata.read_dataset(d / f"in{k}.{case['fmt']}") for k in range(len(tabs))]
+    test = [[set(map(int, idx)) for idx in ds._split(folds, np.random.default_rng(0))] for ds in fresh]
+    thr = Fraction(case.get("train_fdr", THR))
+    start = []
+    for f in range(folds):
+        rows = {c: [] for c in feature_cols}
+        for k, df in enumerate(tabs):
+            labs = raw_labels(df)
+            keep = [i for i in range(len(df)) if i not in test[k][f]]
+            for c in feature_cols:
+                col = df[c].tolist()
+                rows[c] += [[int(col[i]), labs[i] in (1, True)] for i in keep]
+        cols = [direction] if direction is not None else feature_cols
+        reqs = [req("labels", desc_, thr, rows[c]) for c in cols for desc_ in (True, False)]
+        counts = [sum(1 for x in dec(r_) if x == "1") for r_ in common.driver_batch(reqs)]
+        start.append(max(counts))
+    if min(start) == 0:
+        chk.reject("brew-refused:no-start-labels")
+        return
+    chk.spec_violation("brew-refused-with-usable-start-feature",
+                       dict(case=case, error=msg[:200], start_counts_per_fold=start, direction=direction,
+                            clause="brew refused (no start labels) although on every fold's training set "
+                                   + ("the named start feature" if direction is not None else "some feature")
+                                   + f" accepts targets at train_fdr (per fold: {start})"))
+
+
 def run_case(chk, case):
     import random
     import mokapot
@@ -61,7 +223,8 @@ def run_case(chk, case):
         off = 0
         for k in range(case["nfiles"]):
             df = mkdata.make_psm_table(r, n_spectra=case["n_spectra"], max_per_spectrum=case["max_per"], n_feat=2,
-                                       label_enc=case["enc"], optional=("ExpMass",), signal=case.get("signal", 4.0),
+                                       label_enc=(case.get("enc2") or case["enc"]) if k else case["enc"],
+                                       optional=("ExpMass",), signal=case.get("signal", 4.0),
                                        good_feats=(0, 1) if case.get("two_good") else (0,))
             df["rowid"] = np.arange(off, off + len(df))
             df["SpecId"] = [f"f{k}_{i}" for i in range(len(df))]
@@ -78,14 +241,28 @@ def run_case(chk, case):
         sign = good_sign if case["est"] == "good" else -good_sign
         override = case["est"] == "forced-bad"
         run = recest.new_run()
+        dir_idx = case.get("direction")
+        direction = None if dir_idx is None else feature_cols[1 + dir_idx]
         model = mokapot.Model(recest.TagProba(sign=sign, run=run), scaler="as-is", train_fdr=case.get("train_fdr", THR), max_iter=2,
-                              override=override, rng=case["seed"])
+                              override=override, rng=case["seed"], direction=direction)
+        chk.count("direction_option", "none" if direction is None else ("informative" if dir_idx == 0 else "other"))
         try:
             _, models, scores, descs = mokapot.brew(dss, model, test_fdr=case.get("test_fdr", THR), folds=case["folds"], rng=case["seed"])
         except Exception as e:
             msg = f"{type(e).__name__}: {e}"
+            if "No PSMs accepted at train_fdr" in msg or "No PSMs found below" in msg:
+                # refusal because the start labels are empty: legitimate only if on some fold's training set the start
+                # feature (the named one, or every feature) accepts nothing in either direction
+                refusal_check(chk, case, d, tabs, feature_cols, direction, msg)
+                return
             if isinstance(e, (IndexError,)) or "No PSMs" in msg or "PSMs were" in msg:
                 chk.reject("brew-refused:" + type(e).__name__)
+                return
+            if direction is not None and type(e).__name__ == "TypeCheckError":
+                chk.spec_violation("direction-best-feat-not-a-name",
+                                   dict(case=case, error=msg[:300],
+                                        clause="Model(direction=...): the fallback to the start feature raised instead of "
+                                               "returning that feature's values"))
                 return
             chk.spec_violation("exception:" + type(e).__name__, dict(case=case, error=msg[:300], clause="brew raised"))
             return
@@ -94,6 +271,11 @@ def run_case(chk, case):
         for m in models:
             if m.feat_pass is None or m.best_feat is None:
                 chk.reject("model-without-best-feature")
+                return
+            if not isinstance(m.best_feat, str) or m.best_feat not in feature_cols:
+                chk.spec_violation("direction-best-feat-not-a-name" if direction is not None else "best-feat-not-a-name",
+                                   dict(case=case, best_feat=repr(m.best_feat)[:120],
+                                        clause="models[i].best_feat is not the name of a feature"))
                 return
             ms.append([int(m.feat_pass), feature_cols.index(m.best_feat), bool(m.desc), bool(m.override),
                        bool(m.is_trained)])
@@ -114,6 +296,23 @@ def run_case(chk, case):
                     reqs.append(req("labels", desc_, Fraction(case.get("train_fdr", THR)), [[allrows[i][0][c], allrows[i][1]] for i in ids]))
             counts = [sum(1 for x in dec(r_) if x == "1") for r_ in common.driver_batch(reqs)]
             cd, ca = counts[0::2], counts[1::2]
+            if direction is not None:
+                # the start feature is given: feat_pass = the better of ITS two directions, desc wins ties (dirStart)
+                j = feature_cols.index(direction)
+                exp = dec(common.driver_batch([req("fbdirstart", cd[j], ca[j])])[0])
+                got = (ms[f][1], ms[f][0], ms[f][2])
+                if got[0] != j or got[1] != max(cd[j], ca[j]) or (cd[j] if got[2] else ca[j]) != got[1]:
+                    chk.spec_violation("direction-start-not-that-feature",
+                                       dict(case=case, fold=f, direction=direction,
+                                            reported=dict(feature=feature_cols[got[0]], feat_pass=got[1], desc=got[2]),
+                                            pass_desc=cd[j], pass_asc=ca[j],
+                                            clause=f"fold {f}: with direction={direction} the model reports feature "
+                                                   f"{feature_cols[got[0]]}, feat_pass {got[1]}, desc {got[2]}; that feature "
+                                                   f"accepts {cd[j]} (higher-is-better) / {ca[j]} (lower-is-better)"))
+                    return
+                if [int(exp[0]), exp[1] == "T"] != [got[1], got[2]]:
+                    chk.corr_break("fbdirstart", dict(case=case, fold=f, model=exp, impl=list(got)))
+                continue
             best = dec(common.driver_batch([req("fbbest", cd, ca)])[0])
             if best == "none":
                 continue
@@ -171,6 +370,21 @@ def run_case(chk, case):
         for j, c in enumerate(feature_cols):
             if all(np.array_equal(ret, df[c].values.astype(float)) for ret, df in zip(returned, tabs)):
                 feat_hit = j
+        # --- end to end: the whole returned pair against the Lean model of brew's tail and against TailSpec
+        colls = [[raw_wire(df), [[int(v) for v in df[c]] for c in feature_cols], list(map(int, msc))]
+                 for df, msc in zip(tabs, model_scores)]
+        thr_t = Fraction(case.get("test_fdr", THR))
+        ret_int = None
+        if all(np.all(np.isfinite(r)) and np.all(r == np.round(r)) for r in returned):
+            ret_int = [[int(v) for v in r] for r in returned]
+        tail_reqs = [req("fbtail", ms, thr_t, colls)]
+        shaped = ret_int is not None and len(ret_int) == len(tabs) and all(len(r) == len(df) for r, df in zip(ret_int, tabs))
+        if shaped:
+            tail_reqs.append(req("fbtailspec", ms, thr_t, colls, [ret_int, [bool(x) for x in descs]]))
+        tail_resp = common.driver_batch(tail_reqs)
+        tail_model = dec(tail_resp[0])
+        tail_spec_ok = (dec(tail_resp[1]) == "T") if shaped else None
+        chk.count("enc2", str(case.get("enc2") if case["nfiles"] > 1 else None))
         chk.count("est", case["est"]); chk.count("enc", case["enc"]); chk.count("best_low", case["best_low"])
         chk.count("all_trained", all_trained); chk.count("decision", "feature" if decision != "model" else "model")
         chk.count("fmt", case["fmt"]); chk.count("nfiles", case["nfiles"])
@@ -200,6 +414,23 @@ def run_case(chk, case):
         if clause:
             chk.spec_violation("safety-net", info)
             return
+        if tail_spec_ok is not True:
+            info["clause"] = ("the returned (scores, descs) do not satisfy TailSpec (model-or-zero scores that are not beaten, "
+                              "or every collection's column of a best fold's best feature with its direction for every "
+                              "collection)" if tail_spec_ok is False else
+                              "returned scores are not one integer-valued list per collection with one value per row")
+            chk.spec_violation("safety-net-tail", info)
+            return
+        if tail_model == "reject-label":
+            chk.corr_break("fbtail", dict(info, note="model rejects labels that brew accepted"))
+        else:
+            tm_scores = [[int(x) for x in col] for col in tail_model[0]]
+            tm_descs = [x == "T" for x in tail_model[1]]
+            chk.count("tail", "feature" if decision != "model" else ("zeros" if not all_trained else "model"))
+            if tm_scores != ret_int or tm_descs != [bool(x) for x in descs]:
+                # several folds may tie on feat_pass with different features: TailSpec accepted the choice
+                if sum(1 for m in ms if m[0] == feat_total) == 1 or decision == "model":
+                    chk.corr_break("fbtail", dict(info, model_descs=tm_descs))
         # model agreement
         if decision == "model":
             if not (is_model or is_zero):
@@ -244,6 +475,8 @@ def run_case(chk, case):
             if bad:
                 chk.spec_violation("direction", dict(case=case, clause=bad, desc=desc))
                 return
+        if case.get("entry_fdr") is not None:
+            entry_check(chk, case, d, dss, tabs, feature_cols)
 
 
 def search(chk):
@@ -267,6 +500,10 @@ def main(chk, args):
         "the accepted-target count of the model scores is recomputed from the recording estimator's known output "
         "(sign*feature*16+tag, uncalibrated predict_proba path) and the C01 model; thresholds are dyadic",
         "feat_pass / best_feat / desc are read from the returned Model objects (observe_at of the property)",
+        "a refusal of brew for lack of start labels is accepted only if the start feature accepts nothing on some fold's "
+        "training set; the fold partition is recomputed with the real `_split` on a fresh copy of the files (C02)",
+        "assign_confidence(scores=None): the accepted counts per feature and direction are computed by the C01 model on the "
+        "whole collection; which column the result files rank by is read off their `score` column",
     ]
     chk.finish(build, RULE, search=search, lc=lc, trusted_extra=["C01 model for q-values", "pandas/pyarrow I/O"])
 
